@@ -5,7 +5,11 @@ use mzv::runner::{orchestrator::orchestrate, Tier};
 macro_rules! dispatch {
     ($id:expr, $f:ident $(, $a:expr)*) => {
         match $id {
+            "C01" => $f::<props::c01::P>($($a),*),
             "C03" => $f::<props::c03::P>($($a),*),
+            "C04" => $f::<props::c04::P>($($a),*),
+            "C10" => $f::<props::c10::P>($($a),*),
+            "C11" => $f::<props::c11::P>($($a),*),
             other => {
                 eprintln!("unknown property {other}");
                 std::process::exit(2)
